@@ -130,6 +130,31 @@ def run(ctx):
                 spec_fail.append(("stochastic_reconfiguration_global", "the random-number state advances (the same comb offset is never reused)", {}))
         except Exception as ex:
             spec_fail.append(("stochastic_reconfiguration_global", "global reconfiguration runs for both containers", {"error": repr(ex)[:300]}))
+    # ---- initialisation from a user-supplied, heterogeneous population (a restart): the initial energy estimate / shift is a
+    # symmetric function of the population and the same for both containers
+    for rep in range(2):
+        try:
+            seed = rng.randrange(1 << 30)
+            Sr = systems.make_system(random.Random(seed), "rhf", "restricted", norb=4, nelec=(2, 2), nchol=2, n_walkers=4, dt=0.05, seed=seed, converge=3)
+            Su = systems.make_system(random.Random(seed), "uhf_same", "unrestricted", norb=4, nelec=(2, 2), nchol=2, n_walkers=4, dt=0.05, seed=seed)
+            c = Sr["wave_data"]["mo_coeff"]
+            Su["wave_data"]["mo_coeff"] = [c, c]
+            Su["ham_data"] = Su["ham"].build_measurement_intermediates(dict(Su["ham_data"]), Su["trial"], Su["wave_data"])
+            W = wf.walkers(rng, 4, (2, 2), 4, restricted=True)
+            perm = np.array([2, 0, 3, 1])
+            er = complex(Sr["prop"].init_prop_data(Sr["trial"], Sr["wave_data"], Sr["ham_data"], W)["e_estimate"])
+            eu = complex(Su["prop"].init_prop_data(Su["trial"], Su["wave_data"], Su["ham_data"], [W, W])["e_estimate"])
+            eup = complex(Su["prop"].init_prop_data(Su["trial"], Su["wave_data"], Su["ham_data"], [W[perm], W[perm]])["e_estimate"])
+            erp = complex(Sr["prop"].init_prop_data(Sr["trial"], Sr["wave_data"], Sr["ham_data"], W[perm])["e_estimate"])
+            evals += 4
+            if abs(er - eu) > 1e-9 * max(1.0, abs(er)):
+                spec_fail.append(("init_prop_data", "restricted and unrestricted containers start from the same energy estimate for the same heterogeneous population",
+                                  {"seed": seed, "restricted": str(er), "unrestricted": str(eu)}))
+            if abs(eu - eup) > 1e-9 * max(1.0, abs(eu)) or abs(er - erp) > 1e-9 * max(1.0, abs(er)):
+                spec_fail.append(("init_prop_data", "the initial energy estimate is a symmetric function of the population (unchanged by permuting the walkers)",
+                                  {"seed": seed, "unrestricted": [str(eu), str(eup)], "restricted": [str(er), str(erp)]}))
+        except Exception as ex:
+            spec_fail.append(("init_prop_data", "initialisation from supplied walkers runs", {"error": repr(ex)[:300]}))
     # ---- propagate / _apply_trotprop: permutation and batch count
     for wt, tk, ne in (("restricted", "rhf", (2, 2)), ("unrestricted", "uhf", (2, 1))):
         seed = rng.randrange(1 << 30)
